@@ -314,6 +314,8 @@ static void read_value(const V &v, std::string &o) {
     o += ";z"; o += std::to_string(v.Size());
 }
 
+static void write_units(StringStream<Ch> &out, const Ch *p, SizeT n) { out.Write(p, n); }
+
 // Getters that every kind answers (mostly with "nothing"), the non-const getter overloads, the
 // String-returning Stringify and operator<<.  Each answer is determined by the kind and by reads the
 // dump already compares with the model (they are overloads / alternative routes of the same
@@ -388,6 +390,14 @@ static void extra_reads(V &v, std::string &o) {
         if (b.Length() != a.Length() || !StringUtils::IsEqual(b.First(), a.First(), a.Length())) o += "!str1";
         if (c.Length() != a.Length() || !StringUtils::IsEqual(c.First(), a.First(), a.Length())) o += "!str2";
         if (d.Length() != a.Length() || !StringUtils::IsEqual(d.First(), a.First(), a.Length())) o += "!str3";
+    }
+    // CopyValueTo with an explicit format and a string function
+    {
+        StringStream<Ch> a;
+        StringStream<Ch> b;
+        const bool       ra = cv.CopyValueTo(a);
+        const bool       rb = cv.CopyValueTo(b, Digit::RealFormatInfo{Config::DoublePrecision}, &write_units);
+        if (ra != rb || a.Length() != b.Length() || !StringUtils::IsEqual(a.First(), b.First(), a.Length())) o += "!cvf";
     }
     (void)ptr;
 }
